@@ -28,6 +28,9 @@ def make_record(spec):
         y = rng.standard_normal(N) * 2.0
     elif kind == "filtered":
         y = np.convolve(x, [0.5, -0.3, 0.2], mode="same") + 0.3 * rng.standard_normal(N) + 0.001 * np.arange(N)
+    elif kind == "offset":
+        y = 0.7 * x + 0.5 * rng.standard_normal(N) - 30.0
+        x = x + 50.0 + 0.002 * np.arange(N)
     else:
         y = 1.5 * x + 0.2 * rng.standard_normal(N)
     return x, y
@@ -110,6 +113,11 @@ def record_analysis(spec):
                 r = analyze(np.vstack([x * cn / cd, y * dn / dd]), fs, spec)
                 for j in idx:
                     ev.append({"t": "scale", "j": j + 1, "cn": cn, "cd": cd, "dn": dn, "dd": dd, **bin_fields(r, j, s, hs)})
+            elif kind == "tiny":
+                eps = 2.0 ** var[1]
+                r = analyze(np.vstack([x * eps, y * eps]), fs, spec)
+                for j in idx:
+                    ev.append({"t": "tiny", "j": j + 1, "e": int(var[1]), **bin_fields(r, j, s * eps * eps, hs)})
             elif kind == "relabel":
                 _, an, ad = var
                 r = analyze(np.vstack([x, y]), fs * an / ad, spec)
@@ -147,6 +155,40 @@ def record_analysis(spec):
                         ev.append({"t": "winsum", "psll": int(psll), "L": L, "s12": qc(float(r.S12[j]) / (L * L)), "s2": qc(float(r.S2[j]) / L),
                                    "xs12": qc(s1 * s1 / (L * L)), "xs2": qc(s2 / L),
                                    "enbwq": qc(float(r.ENBW[j]) * L / fs, 2 ** 16), "enbwx": qc(L * s2 / (s1 * s1), 2 ** 16)})
+            elif kind == "sine":
+                # a sinusoid analysed at its own frequency with a low-sidelobe window: ps = A^2/2 (contract clause)
+                import speckit
+                from speckit.utils import kaiser_alpha
+                rngs = np.random.default_rng(spec["seed"] + 17)
+                for _ in range(var[1]):
+                    A = float(rngs.choice([1.0, 1.5, 7.0, 0.01]))
+                    psll = float(rngs.choice([60, 100, 140, 200]))
+                    L = int(rngs.choice([64, 100, 257, 1000, spec["N"]]))
+                    alpha = kaiser_alpha(psll)
+                    width = math.sqrt(1 + alpha * alpha) + 1.0            # main-lobe half width in bins (+1)
+                    b0 = float(rngs.uniform(2 * width, L / 2 - 2 * width)) if L / 2 > 4 * width + 1 else None
+                    if b0 is None:
+                        continue
+                    f0 = b0 * fs / L
+                    ph = float(rngs.uniform(0, 2 * math.pi))
+                    sig = A * np.cos(2 * math.pi * f0 / fs * np.arange(spec["N"]) + ph)
+                    mode = rngs.choice(["L", "fres", "plan"])
+                    kwa = dict(win="kaiser", psll=psll, order=int(rngs.choice([-1, 0])), backend=spec["backend"])
+                    if mode == "L":
+                        r = speckit.compute_single_bin(sig, fs, f0, L=L, **kwa)
+                    elif mode == "fres":
+                        r = speckit.compute_single_bin(sig, fs, f0, fres=fs / (L + 0.37), **kwa)
+                    else:
+                        Kp = max(1, (spec["N"] - L) // max(1, L // 4) + 1)
+                        Dp = np.round(np.linspace(0, spec["N"] - L, Kp)).astype(np.int64)
+                        plan = {"f": np.array([f0]), "r": np.array([fs / L]), "b": np.array([f0 * L / fs]), "L": np.array([L]),
+                                "K": np.array([Kp]), "navg": np.array([Kp]), "D": [Dp], "O": np.array([0.0])}
+                        r = speckit.SpectrumAnalyzer(sig, fs, scheduler=(lambda **kw: plan), **kwa).compute()
+                    Lr = int(r.L[0])
+                    w = np.kaiser(Lr + 1, alpha * np.pi)[:-1]
+                    s1, s2 = float(np.sum(w)), float(np.sum(w * w))
+                    ev.append({"t": "sine", "psq": qc(float(r.ps[0]) / (A * A / 2)), "bound": qc(8 * 10 ** (-psll / 20)) + 4,
+                               "enbwq": qc(float(r.ENBW[0]) * Lr / fs, 2 ** 16), "enbwx": qc(Lr * s2 / (s1 * s1), 2 ** 16), "mode": str(mode)})
             elif kind == "gain":
                 g = var[1]
                 r = analyze(np.vstack([x, g * x]), fs, spec)
@@ -155,8 +197,8 @@ def record_analysis(spec):
                     ev.append({"t": "gain", "hg": [qc(hg.real), qc(hg.imag)], "coh": qc(float(r.coh[j]))})
             elif kind == "delay":
                 d = var[1]
-                yd = np.roll(x, d)
-                r = analyze(np.vstack([x, yd]), fs, spec)
+                xw = np.random.default_rng(spec["seed"] + 99).standard_normal(spec["N"] + d)     # broadband, no trend: a true delay
+                r = analyze(np.vstack([xw[d:], xw[:-d]]), fs, spec)
                 for j in idx:
                     ph = -2 * math.pi * float(r.f[j]) * d / fs
                     hh = r.Hxy[j]
